@@ -832,7 +832,10 @@ def _model_step(f, sym):
 
 def _hist_request(app, sym):
     from urllib.parse import urlencode
-    pin = "000-000-000" if sym == "w" else PIN
+    # r: right PIN, no cookie; w: wrong PIN, no cookie; s: stale-hash cookie (what a browser keeps after the PIN
+    # changed) with a wrong PIN - with the right PIN next to it the statement does not fix the answer;
+    # v: valid cookie (PIN field irrelevant)
+    pin = PIN if sym in ("r", "v") else "000-000-000"
     cookie = None
     if sym == "s":
         cookie = f"{_cookie_name()}={NOW - 50}|{'f' * 12}"
@@ -964,14 +967,14 @@ def replay(payload):
 L63, L64 = "a" * 63, "a" * 64
 
 HOST_LABELS_Q = ["localhost", "evil", "com", "evillocalhost", "LOCALHOST", "b\xfccher", "xn--bcher-kva", "", L64]
-HOST_LABELS_T = HOST_LABELS_Q + ["a", "Com", "m\xfcnchen", "B\xdcCHER", L63, "localhos", "1"]
+HOST_LABELS_T = HOST_LABELS_Q + ["a", "m\xfcnchen", "B\xdcCHER", L63]
 ENTRY_LABELS_Q = ["localhost", "com", "evil", "b\xfccher", "xn--bcher-kva", "", L64]
-ENTRY_LABELS_T = ENTRY_LABELS_Q + ["a", "LocalHost", "m\xfcnchen", L63, "1"]
+ENTRY_LABELS_T = ENTRY_LABELS_Q + ["a", "LocalHost", "m\xfcnchen", L63]
 PORTS = ["", ":80", ":8080", ":x"]
 
 SPECIAL_HOSTS = [
     "[::1]", "[::1]:80", "[::1]:5000", "[::2]", "[::2]:80", "[0:0:0:0:0:0:0:1]", "[::1", "::1", "[::1]x", "[", "[]",
-    "[::1].localhost", "[evil]", "[::1]:80:80", "[::FFFF:127.0.0.1]", "[::ffff:127.0.0.1]",
+    "[::1].localhost", "[evil]", "[2001:db8::1]", "[2001:db8::2]", "[2001:db8::1]:8080", "[2002:db8::1]", "[::1]:80:80", "[::FFFF:127.0.0.1]", "[::ffff:127.0.0.1]",
     "127.0.0.1", "127.0.0.2", "127.0.0.1:5000", "127.0.0.10", "1127.0.0.1", "127.0.0.1.evil.com", "127.0.0", "127.0.0.1.",
     "0127.0.0.1", "127.1", "2130706433", "127.0.0.1.localhost", "localhost.127.0.0.1",
     "localhost.", "localhost.:80", "sub.localhost.", ".", "..", ":", ":80", "", L63 + ".localhost", L64 + ".localhost",
@@ -986,7 +989,7 @@ SPECIAL_ENTRIES = [
     "127.0.0.1", ".127.0.0.1", "[::1]", "[::2]", "[::1]:80", ".[::1]", ".", "", "localhost.", ".localhost.", "LocalHost",
     ".localhost:x", ".evil.com", "sub.evil.com", L63, "." + L63 + ".localhost", "dev.example.com", ".example.com",
     "xn--wda.localhost", "\xff.localhost", ".m\xfcnchen.com", "localhost:8080", ".com:80", "a b", "*", "*.localhost",
-    "[::ffff:127.0.0.1]",
+    "[::ffff:127.0.0.1]", "[2001:db8::1]", "[2001:db8::1]:8080",
 ]
 CORE_LISTS = [
     [".localhost", "127.0.0.1"], ["localhost"], [".localhost"], ["127.0.0.1"], ["[::1]"], ["[::1]", "[::2]"],
@@ -1103,6 +1106,7 @@ DBG_HOSTS_Q = [
     "localhost.", ".", "LOCALHOST", "Sub.LocalHost", "localhost:evil", "localhost:80:evil.com", "localhost@evil.com",
     "evil.com/localhost", "localhost.localhost.evil", "localhostlocalhost", "-localhost", ":5000", "evil.com:localhost",
 ]
+DBG_HOSTS_T = DBG_HOSTS_Q + [h for i, h in enumerate(h for h in SPECIAL_HOSTS if h not in DBG_HOSTS_Q) if i % 2 == 0]
 DBG_COOKIES_Q = ["valid", "valid_edge", "at_edge", "expired", "wronghash", "hash_prefix", "hash_extra", "nopipe", "ts_text",
                  "empty", "absent"]
 DBG_COOKIES_ALL = DBG_COOKIES_Q + ["expired_old", "hash_empty", "ts_empty", "only_hash", "othername",
@@ -1110,7 +1114,7 @@ DBG_COOKIES_ALL = DBG_COOKIES_Q + ["expired_old", "hash_empty", "ts_empty", "onl
 
 
 def _dbg_cases(tier):
-    hosts = DBG_HOSTS_Q if tier == "quick" else DBG_HOSTS_Q + [h for h in SPECIAL_HOSTS if h not in DBG_HOSTS_Q]
+    hosts = DBG_HOSTS_Q if tier == "quick" else DBG_HOSTS_T
     cookies = DBG_COOKIES_Q if tier == "quick" else DBG_COOKIES_ALL
     secrets = SECRETS if tier == "quick" else SECRETS + ("upper", "empty")
     frames = ("known", "unknown", "absent", "junk", "zero")
@@ -1233,7 +1237,7 @@ def run(tier, seed, reg=None):
     ).format(
         len(HOST_LABELS_Q if quick else HOST_LABELS_T), PORTS, len(SPECIAL_HOSTS), len(_lists(tier)), len(CORE_LISTS),
         len(SECRETS if quick else SECRETS + ("upper", "empty")),
-        len(DBG_HOSTS_Q) if quick else len(DBG_HOSTS_Q + [h for h in SPECIAL_HOSTS if h not in DBG_HOSTS_Q]),
+        len(DBG_HOSTS_Q) if quick else len(DBG_HOSTS_T),
         len(DBG_COOKIES_Q if quick else DBG_COOKIES_ALL), full_depth,
         " plus every sequence of length 12-14 that has at most 3 non-wrong attempts or on which more than 10 failures "
         "since the last success are reached before its last attempt" if quick else "",
